@@ -296,7 +296,6 @@ func c15Judge(prog []*gen.LStmt) (v c15Verdict) {
 			// a glob declared in an earlier step's block is lexically closed when the next
 			// step begins (C12 scope decision); a flat derived program cannot express that
 			v.unjudgedBoards++
-			derivedOK++
 			continue
 		}
 		d := gen.LRender(c15Derived(b))
